@@ -139,6 +139,15 @@ def run(chk):
                     if o == 'setp:P1':
                         loaded = True
             lines.append('api %s new:none;%s' % (kinds4[k % 4], ';'.join(ops)))
+        # compiling again after something changed must pick the change up in both builds (a helper re-bound under the same id, a
+        # program reloaded): the machine code holds helper addresses
+        for a, b in (('mix', 'clobber'), ('clobber', 'mix')):
+            for h in (['setp:PH', 'helper:1:' + a, 'jit', 'xj', 'helper:1:' + b, 'xj', 'jit', 'xj', 'x'],
+                      ['helper:1:' + a, 'setp:PH', 'jit', 'helper:1:' + b, 'jit', 'xj', 'setp:P2', 'xj', 'jit', 'xj'],
+                      ['setp:PH', 'helper:1:' + a, 'setx', 'jitx', 'xj', 'helper:1:' + b, 'setx', 'jitx', 'xj'],
+                      ['setp:P1', 'jit', 'xj', 'jit', 'xj', 'setp:P2', 'jit', 'jit', 'xj', 'x']):
+                for kd in kinds4:
+                    lines.append('api %s new:none;%s' % (kd, ';'.join(C10.op_line(o) for o in h)))
         # caller-supplied memory that is too short for the code: the no_std build must answer with an error, not crash
         short_lines = []
         for n in (700, 1500, 2600):
